@@ -255,6 +255,23 @@ def _box(ctx, name, x, lo=-1, hi=1):
     return Num('r', e=v, ty=float)
 
 
+def _box_fn(ctx, name, args, lo=None, hi=None, lo_strict=False, hi_strict=False):
+    """box abstraction of a deterministic function: equal arguments (structurally) give the same variable"""
+    key = ('fn-' + name,) + tuple(z3.simplify(a.re()).sexpr() for a in args)
+    v = ctx.memo.get(key)
+    if v is None:
+        v = z3.Real(ctx.fresh_name(name))
+        ctx.memo[key] = v
+        cs = []
+        if lo is not None:
+            cs.append(v > lo if lo_strict else v >= lo)
+        if hi is not None:
+            cs.append(v < hi if hi_strict else v <= hi)
+        if cs:
+            ctx.assume(z3.And(*cs))
+    return Num('r', e=v, ty=float)
+
+
 def _concrete(name, *args):
     vals = []
     for a in args:
@@ -347,8 +364,7 @@ def t_tan(x):
     if ctx.trig == 'concrete':
         return _concrete('tan', x)
     if ctx.trig == 'box':
-        v = z3.Real(ctx.fresh_name('tan'))
-        return Num('r', e=v, ty=float)
+        return _box_fn(ctx, 'tan', [x])
     C, S = cos_sin(_as_angle(x))
     # math.tan never raises: where cos = 0 it returns a huge finite number; that point is outside the model
     ctx.assume(C != 0)
@@ -381,9 +397,7 @@ def t_atan2(y, x):
     if ctx.trig == 'concrete':
         return _concrete('atan2', y, x)
     if ctx.trig == 'box':
-        v = z3.Real(ctx.fresh_name('atan2'))
-        ctx.assume(z3.And(v > z3.RealVal(str(-PI_D)), v <= z3.RealVal(str(PI_D))))
-        return Num('r', e=v, ty=float)
+        return _box_fn(ctx, 'atan2', [y, x], z3.RealVal(str(-PI_D)), z3.RealVal(str(PI_D)), lo_strict=True)
     ye, xe = y.re(), x.re()
     if ctx.decide(z3.And(ye == 0, xe == 0), weak_true=True):
         return Num.const(0.0)
@@ -414,9 +428,7 @@ def t_asin(z):
     ze = z.re()
     _domain(ctx, ze)
     if ctx.trig == 'box':
-        v = z3.Real(ctx.fresh_name('asin'))
-        ctx.assume(z3.And(v >= z3.RealVal(str(-PI_D / 2)), v <= z3.RealVal(str(PI_D / 2))))
-        return Num('r', e=v, ty=float)
+        return _box_fn(ctx, 'asin', [z], z3.RealVal(str(-PI_D / 2)), z3.RealVal(str(PI_D / 2)))
     w = z3.Real(ctx.fresh_name('w'))
     ctx.assume(z3.And(w >= 0, w * w == 1 - ze * ze))
     res = _inverse(ctx, 'asin', w, ze, -90, 90)
@@ -432,9 +444,7 @@ def t_acos(z):
     ze = z.re()
     _domain(ctx, ze)
     if ctx.trig == 'box':
-        v = z3.Real(ctx.fresh_name('acos'))
-        ctx.assume(z3.And(v >= 0, v <= z3.RealVal(str(PI_D))))
-        return Num('r', e=v, ty=float)
+        return _box_fn(ctx, 'acos', [z], z3.RealVal(0), z3.RealVal(str(PI_D)))
     w = z3.Real(ctx.fresh_name('w'))
     ctx.assume(z3.And(w >= 0, w * w == 1 - ze * ze))
     res = _inverse(ctx, 'acos', ze, w, 0, 180)
@@ -449,9 +459,7 @@ def t_atan(t):
         return _concrete('atan', t)
     te = t.re()
     if ctx.trig == 'box':
-        v = z3.Real(ctx.fresh_name('atan'))
-        ctx.assume(z3.And(v > z3.RealVal(str(-PI_D / 2)), v < z3.RealVal(str(PI_D / 2))))
-        return Num('r', e=v, ty=float)
+        return _box_fn(ctx, 'atan', [t], z3.RealVal(str(-PI_D / 2)), z3.RealVal(str(PI_D / 2)), lo_strict=True, hi_strict=True)
     r = z3.Real(ctx.fresh_name('r'))
     c = z3.Real(ctx.fresh_name('c'))
     s = z3.Real(ctx.fresh_name('s'))
